@@ -93,6 +93,9 @@ def ops : List (String × Handler) := [
     let ir ← irOf (← j.getObjVal? "ir")
     let edd := (getBool j "edd").toOption.getD true
     return Json.mkObj [("indomain", Json.bool (C01Numpy.inDomainNB ir)), ("exp", Driver.C14GN.irJ (C01Numpy.expIRN ir true edd))]),
+  -- the two quoting primitives on their own (exhaustive short strings over the quote alphabet are compared with pure_utils.quote / unquote)
+  ("c01.quote", fun j => do let s ← getChars j "s"; return Json.mkObj [("r", str (quote s))]),
+  ("c01.unquote", fun j => do let s ← getChars j "s"; return Json.mkObj [("r", str (unquote s))]),
   ("c01.needs_quoting", fun j => do
     return Json.mkObj [("r", Json.bool (needsQuoting (optChars j "typ")))])
 ]
